@@ -39,6 +39,15 @@ VECTORS = [
     # fairness loop of truncatePending: offenders with pending lists of different length are equalised first
     V("fair", 6, 8, 1, 1, MaxNonce=2, Prices=[20], AccountSlots=1, GlobalSlots=3, AccountQueue=3, GlobalQueue=3,
       Acts=["ar", "al"], t=dict(Acts=["ar", "al", "ab"])),
+    # the same loop with senders of DIFFERENT pending counts (3 and 2) over six fixed transactions, then room is freed
+    # (SetGasPrice drops the cheaper sender) and the cut sender submits again -- in particular at the nonce Nonce(addr)
+    # reports: with GlobalSlots=4 the equalisation alone brings the pool back under the limit (its setIfLower is the only
+    # thing that corrects the virtual nonce), with GlobalSlots=3 the second loop has to cut too.  TrackGhosts keeps the
+    # histories that went through a cut apart from those that never held the cut transaction.
+    V("equalize4", 7, 8, 1, 1, Prices=[], ExtraTx=[(1, 0, 20, "s"), (1, 1, 20, "s"), (1, 2, 20, "s"), (1, 3, 20, "s"), (2, 0, 10, "s"), (2, 1, 10, "s")],
+      AccountSlots=1, GlobalSlots=4, AccountQueue=4, GlobalQueue=4, Floors=[1, 15], Acts=["ar", "gp"], TrackGhosts=True),
+    V("equalize3", 7, 8, 1, 1, Prices=[], ExtraTx=[(1, 0, 20, "s"), (1, 1, 20, "s"), (1, 2, 20, "s"), (1, 3, 20, "s"), (2, 0, 10, "s"), (2, 1, 10, "s")],
+      AccountSlots=1, GlobalSlots=3, AccountQueue=4, GlobalQueue=4, Floors=[1, 15], Acts=["ar", "gp"], TrackGhosts=True),
     # price floor, pool-full eviction by price, local exemption, sender becoming local
     V("price", 5, 8, 1, 1, MaxNonce=1, Prices=[10, 20, 30], AccountSlots=1, GlobalSlots=2, AccountQueue=2, GlobalQueue=1,
       Floors=[1, 15, 25], Acts=["ar", "al", "gp"], fixed=True),
